@@ -480,7 +480,9 @@ func (e *Evaluator) evalUnaryExpr(expr *ExprUnary) (*Cell, error) {
 			newValue = NewValue(v - 1)
 		}
 
-		e.evalAssignment(expr, val, NewCell(newValue))
+		if _, err := e.evalAssignment(expr, val, NewCell(newValue)); err != nil {
+			return nil, err
+		}
 
 		if expr.Postfix {
 			return NewCell(NewValue(v)), nil
